@@ -3,10 +3,13 @@ package verifdrv
 import (
 	"encoding/json"
 	"fmt"
+	"math"
 	"math/rand"
 	"os"
 	"path/filepath"
+	"regexp"
 	"sort"
+	"strconv"
 	"strings"
 )
 
@@ -255,11 +258,27 @@ func composeBinary(e *env) error {
 		"2021/01/03:\n  bread: 0.3\n  bread: -0.1\n  bread: -0.2\n  unknown food: -0.004\n",
 		"2021/01/04:\n  bread: 2\n  z/water: 3\n  kcal: -500\n",
 		"2021/01/05:\n",
+		// more than 8 lines that merge to fewer foods (first food repeated), then another long day with the same foods
+		"2021/01/06:\n  bread: 1\n  z/water: 1\n  bread: 2\n  kcal: 3\n  bread: 0.5\n  z/water: 2\n  empty: 1\n  bread: 1\n  kcal: 1\n  z/water: -1\n",
+		"2021/01/07:\n  kcal: 1\n  bread: 1\n  z/water: 1\n  kcal: 2\n  a long unknown food name, number one: 1\n  bread: 2\n  z/water: 2\n  empty: 1\n  kcal: 1\n  bread: 3\n  fat: 2\n",
+		// the same day of the year, one year later; and a name that fits neither column, on two days
+		"2022/01/02:\n  bread: 1\n  a long unknown food name, number one: 2\n",
+		"2021/01/02:\n  a long unknown food name, number one: 1\n  fat: 1\n",
 	}
+	// a long history: 70 days (period reports are printed once, at the end, however long the walk)
+	var hist strings.Builder
+	for d := 0; d < 70; d++ {
+		fmt.Fprintf(&hist, "2021/%02d/%02d:\n  bread: %d\n  kcal: -%d\n", 3+d/28, 1+d%28, d%5, d%3)
+	}
+	blocks = append(blocks, hist.String())
 	shapes := [][]string{
 		{"--no-color", "reg"}, {"reg"}, {"--no-color", "reg", "--internal-template-name", "left-aligned"}, {"--no-color", "reg", "--use-old-reg-reporter"},
 		{"--no-color", "reg", "--totals-only"}, {"--no-color", "reg", "--no-totals"}, {"csv", "log"}, {"print"}, {"reg", "-f", "."}, {"reg", "-s", "kcal"}, {"reg", "-s", "salt", "--csv"},
+		{"--no-color", "reg", "--shorten"}, {"--no-color", "reg", "--shorten", "--no-totals"},
 	}
+	// period reports: the rows of the whole are the element-wise sums of the rows of the parts (figures as printed;
+	// the blocks used for this carry whole numbers only)
+	periodShapes := [][]string{{"bal"}, {"bal", "-s", "kcal"}, {"report", "totals"}, {"report", "quantity"}, {"reg", "-s", "kcal", "-g"}}
 	run := func(dir, log string, args []string) (string, bool) {
 		writeFile(filepath.Join(dir, "food.yaml"), book)
 		writeFile(filepath.Join(dir, "log.yaml"), log)
@@ -273,8 +292,73 @@ func composeBinary(e *env) error {
 	}
 	dir := filepath.Join(scratch, "compose-bin")
 	os.MkdirAll(dir, 0o755)
-	orders := [][]int{{0, 1, 2, 3, 4, 5}, {1, 0}, {3, 0, 2}, {4, 3, 2, 1, 0}, {2, 2, 0, 1}}
-	dates := map[string]bool{"2021/01/01": true, "2021/01/02": true, "2021/01/03": true, "2021/01/04": true, "2021/01/05": true}
+	orders := [][]int{{0, 1, 2, 3, 4, 5}, {1, 0}, {3, 0, 2}, {4, 3, 2, 1, 0}, {2, 2, 0, 1}, {6, 7, 6}, {1, 8, 9}, {9, 7, 8}, {4, 10}, {10, 6}}
+	// numbers of every row of a period report, keyed by the text of the row without its numbers
+	rowSums := func(out string) map[string][]float64 {
+		m := map[string][]float64{}
+		numRe := regexp.MustCompile(`-?\d+\.\d+`)
+		for _, l := range strings.Split(out, "\n") {
+			if strings.Trim(l, "-| ") == "" {
+				continue
+			}
+			key := strings.Join(strings.Fields(numRe.ReplaceAllString(l, "#")), " ")
+			for i, x := range numRe.FindAllString(l, -1) {
+				v, _ := strconv.ParseFloat(x, 64)
+				for len(m[key]) <= i {
+					m[key] = append(m[key], 0)
+				}
+				m[key][i] += v
+			}
+		}
+		return m
+	}
+	for _, ord := range [][]int{{4, 10}, {10, 4}, {6, 10, 7}} {
+		for _, args := range periodShapes {
+			e.sum.Cases++
+			sum := map[string][]float64{}
+			var whole strings.Builder
+			ok := true
+			for _, b := range ord {
+				whole.WriteString(blocks[b])
+				o, k := run(dir, blocks[b], args)
+				ok = ok && k
+				for key, vs := range rowSums(o) {
+					for i, v := range vs {
+						for len(sum[key]) <= i {
+							sum[key] = append(sum[key], 0)
+						}
+						sum[key][i] += v
+					}
+				}
+			}
+			ow, k := run(dir, whole.String(), args)
+			if !(ok && k) {
+				continue
+			}
+			got := rowSums(ow)
+			same := len(got) == len(sum)
+			for key, vs := range sum {
+				g := got[key]
+				if len(g) != len(vs) {
+					same = false
+					break
+				}
+				for i := range vs {
+					if math.Abs(g[i]-vs[i]) > 0.0051*float64(len(ord)) {
+						same = false
+					}
+				}
+			}
+			if !same {
+				e.mismatch("period-report-not-sum-of-parts", "cmd/hranoprovod-cli", fmt.Sprintf("binary %v: the report of the concatenated log %q is not the row-wise sum of the reports of its blocks %v (%v)", args, ow, ord, sum),
+					map[string]interface{}{"log": whole.String(), "book": book, "order": ord})
+			}
+		}
+	}
+	dates := map[string]bool{"2021/01/01": true, "2021/01/02": true, "2021/01/03": true, "2021/01/04": true, "2021/01/05": true, "2021/01/06": true, "2021/01/07": true, "2022/01/02": true}
+	for d := 0; d < 70; d++ {
+		dates[fmt.Sprintf("2021/%02d/%02d", 3+d/28, 1+d%28)] = true
+	}
 	for _, ord := range orders {
 		// C15 across processes: default = per day the --no-totals lines followed by the --totals-only lines
 		var wl strings.Builder
